@@ -482,6 +482,45 @@ func genTsBatch(g *gen) {
 		if !expands {
 			g.fail("setup: ts.expand(f.Name) not found")
 		}
+		// Does the loop refuse a name that is not below the work directory before it writes the file?
+		// (an if whose condition calls filepath.IsLocal and whose body fails the setup, before writeFile)
+		contained := false
+		ast.Inspect(setup.Body, func(n ast.Node) bool {
+			rs, ok := n.(*ast.RangeStmt)
+			if !ok || !tsbIsSel(rs.X, "a", "Files") {
+				return true
+			}
+			writePos := rs.End()
+			for _, c := range tsbCalls(rs.Body, "writeFile") {
+				if c.Pos() < writePos {
+					writePos = c.Pos()
+				}
+			}
+			for _, st := range rs.Body.List {
+				is, ok := st.(*ast.IfStmt)
+				if !ok || is.Pos() > writePos {
+					continue
+				}
+				usesLocal, fails := false, false
+				ast.Inspect(is.Cond, func(m ast.Node) bool {
+					if ce, ok := m.(*ast.CallExpr); ok && tsbIsSel(ce.Fun, "filepath", "IsLocal") {
+						usesLocal = true
+					}
+					return true
+				})
+				ast.Inspect(is.Body, func(m ast.Node) bool {
+					if ce, ok := m.(*ast.CallExpr); ok && (tsbIsSel(ce.Fun, "ts", "Fatalf") || tsbIsSel(ce.Fun, "ts", "Check")) {
+						fails = true
+					}
+					return true
+				})
+				if usesLocal && fails {
+					contained = true
+				}
+			}
+			return false
+		})
+		g.tsbEmitBool("entry_names_contained", "testscript.setup: an archive entry whose expanded name is not local to the work directory (filepath.IsLocal) fails the setup before anything is written", contained)
 		g.tsbEmitBool("entry_names_see_env", "testscript.setup: ts.envMap is built before the archive entry names are expanded (a name $WORK/x is then a file of the work directory, not /x)", sees)
 	}
 
@@ -627,6 +666,40 @@ func genTsBatch(g *gen) {
 		}
 		g.tsbEmitBool("retention_skips_cleanup", "testscript.RunT: with TestWork / -testwork (WorkdirRoot sets TestWork) the deferred function returns before removeAll and the ref-count", okRet)
 		g.tsbEmitBool("last_script_removes_root_and_cancels", "testscript.RunT: the subtest that brings refCount to 0 removes the root and cancels the context", okRef)
+		// no script at all: does RunT itself remove the root? (a statement of RunT's own body, not of a subtest)
+		emptyCleans := false
+		for _, st := range runT.Body.List {
+			is, ok := st.(*ast.IfStmt)
+			if !ok {
+				continue
+			}
+			zero, removes := false, false
+			ast.Inspect(is.Cond, func(m ast.Node) bool {
+				if be, ok := m.(*ast.BinaryExpr); ok && be.Op == token.EQL {
+					if v, ok := tsbIntLit(be.Y); ok && v == 0 {
+						ast.Inspect(be.X, func(k ast.Node) bool {
+							if id, ok := k.(*ast.Ident); ok && (id.Name == "refCount" || id.Name == "files") {
+								zero = true
+							}
+							return true
+						})
+					}
+				}
+				return true
+			})
+			ast.Inspect(is.Body, func(m ast.Node) bool {
+				if c, ok := m.(*ast.CallExpr); ok && tsbIsSel(c.Fun, "os", "Remove") && len(c.Args) == 1 {
+					if id, ok := c.Args[0].(*ast.Ident); ok && id.Name == "testTempDir" {
+						removes = true
+					}
+				}
+				return true
+			})
+			if zero && removes {
+				emptyCleans = true
+			}
+		}
+		g.tsbEmitBool("empty_batch_removes_root", "testscript.RunT: with no script at all RunT removes the temporary root itself", emptyCleans)
 		// WorkdirRoot != "" sets p.TestWork = true
 		okWR := false
 		ast.Inspect(runT.Body, func(n ast.Node) bool {
